@@ -1,4 +1,171 @@
-(* placeholder while the model is being validated; replaced below *)
-From PV Require Import Base.Bytes Model.Address.
-Example C08_placeholder : kind_len 0 = 20%nat.
-Proof. reflexivity. Qed.
+(* Props/C08.v — property C08: addresses and output scripts are in one-to-one correspondence on every network.
+   Only statements; every proof is `exact <lemma of Proofs/AddressP.v>`.
+
+   Reading guide.
+   * `networks` is the GENERATED table of pycoin/symbols (Gen/GenNetworks.v, 51 rows today); `nr_std net = true` excludes the
+     three Groestlcoin rows (their Base58 encoder needs the absent groestlcoin_hash package and their parsers are
+     switched off by the symbol files: table-only, see harness/meta/C08.json).  `nr_kinds net` are the kinds for which the
+     LIVE network object returns an address (0 P2PKH, 1 P2SH, 2 P2WPKH, 3 P2WSH, 4 P2TR).
+   * The model functions (for_info, info_for_script, address_for_script, parse_address, ...) are Model/Address.v, the
+     transcription of ContractAPI / AddressAPI / ParseAPI; `std_script k payload` is the independent byte-level
+     specification of the five output scripts (Spec/AddressSpec.v).
+   * The Base58Check / segwit-address codecs and hash160 are universally quantified functions; what the theorems need of
+     them is the explicit premise `codec_laws` (B1 decode∘encode, B3 a Base58 length bound, S1 parse∘encode, S2 the encoder
+     accepts the table's hrps for 20/32-byte programs, S4 a segwit length bound) — facts about the codecs that C11 owns,
+     checked on pycoin's codecs by the direct checks of harness/c08.py and satisfiable (C08_codec_laws_satisfiable).
+   * Results are `Ret ...`: the theorems also say that no exception escapes. *)
+From PV Require Import Base.Bytes Base.Outcome Gen.GenNetworks Model.Address Spec.AddressSpec Proofs.AddressP.
+Local Open Scope N_scope.
+
+(* 1. script -> address -> script, on every table network and every kind it defines, for every payload of the kind's
+      length: the constructor builds the specified script, the script has an address, and that address parses back
+      (parse.address, contract.for_address) to exactly that script *)
+Theorem C08_script_address_script :
+  forall (enc : bytes -> bytes) (dec : bytes -> option bytes) (senc : bytes -> N -> bytes -> option bytes)
+         (sparse : bytes -> option (bytes * N * bytes * N)) (hash160 : bytes -> bytes),
+  codec_laws enc dec senc sparse ->
+  forall (net : netrow) (k : N) (payload : bytes),
+  In net networks -> nr_std net = true -> In k (nr_kinds net) -> length payload = kind_len k ->
+  for_info (kind_info k payload) = Ret (std_script k payload) /\
+  exists s, address_for_script enc senc hash160 net (std_script k payload) = Ret (Some s) /\
+            parse_address dec sparse net s = Ret (Some (kind_info k payload)) /\
+            contract_for_address dec sparse net s = Ret (Some (std_script k payload)).
+Proof. exact table_script_address_script. Qed.
+Print Assumptions C08_script_address_script.
+
+(* 2. any string a network accepts is one of its kinds with a payload of exactly the kind's length (20/32), the Contract's
+      script is the specified script, and the script's address (the re-encoding) is accepted as the same Contract *)
+Theorem C08_accept_implies_reencode :
+  forall (enc : bytes -> bytes) (dec : bytes -> option bytes) (senc : bytes -> N -> bytes -> option bytes)
+         (sparse : bytes -> option (bytes * N * bytes * N)) (hash160 : bytes -> bytes),
+  codec_laws enc dec senc sparse ->
+  forall (net : netrow) (s : bytes) (i : info),
+  In net networks -> nr_std net = true -> parse_address dec sparse net s = Ret (Some i) ->
+  exists k payload s', In k (nr_kinds net) /\ length payload = kind_len k /\ i = kind_info k payload /\
+    for_info i = Ret (std_script k payload) /\
+    address_for_script enc senc hash160 net (std_script k payload) = Ret (Some s') /\
+    parse_address dec sparse net s' = Ret (Some i).
+Proof. exact table_accept_reencode. Qed.
+Print Assumptions C08_accept_implies_reencode.
+
+(* 2'. ... and the re-encoding is the accepted text itself for Base58 kinds, its lower-case form for Bech32 kinds (BIP173
+       requires all-upper-case strings to be accepted; DESIGN.md's "= Some s" is inexact for those), given the two
+       textual codec laws B2 (canonical Base58Check) and S3 (these alone suffice here) *)
+Theorem C08_accept_reencode_text :
+  forall (enc : bytes -> bytes) (dec : bytes -> option bytes) (senc : bytes -> N -> bytes -> option bytes)
+         (sparse : bytes -> option (bytes * N * bytes * N)) (hash160 lower : bytes -> bytes)
+         (net : netrow) (s : bytes) (i : info),
+  codec_text_laws enc dec senc sparse lower ->
+  In net networks -> nr_std net = true -> parse_address dec sparse net s = Ret (Some i) ->
+  exists k payload, i = kind_info k payload /\ k <= 4 /\ length payload = kind_len k /\
+    address_for_script enc senc hash160 net (std_script k payload) = Ret (Some (if k <=? 1 then s else lower s)).
+Proof. exact table_accept_reencode_text. Qed.
+Print Assumptions C08_accept_reencode_text.
+
+(* 3. every ORDERED PAIR of table networks: an address produced on A for a standard script, if accepted on B, carries the
+      same payload, and B itself produces that very string for the script it understood.  The script is the same one
+      for the segwit kinds, and for Base58 kinds whenever A's and B's version prefixes do not coincide across kinds
+      (`cross_kind_ok`, decidable on the table; e.g. BTG's P2SH prefix 0x17 is ARG's P2PKH prefix: inherent to those
+      coins' parameters).  The six prefix-of-prefix offenders of DESIGN.md section 7 #17 are instances of this theorem now. *)
+Theorem C08_cross_network :
+  forall (enc : bytes -> bytes) (dec : bytes -> option bytes) (senc : bytes -> N -> bytes -> option bytes)
+         (sparse : bytes -> option (bytes * N * bytes * N)) (hash160 : bytes -> bytes),
+  codec_laws enc dec senc sparse ->
+  forall (A B : netrow) (kA : N) (payload s : bytes) (i : info),
+  In A networks -> In B networks -> nr_std A = true -> nr_std B = true ->
+  In kA (nr_kinds A) -> length payload = kind_len kA ->
+  address_for_script enc senc hash160 A (std_script kA payload) = Ret (Some s) ->
+  parse_address dec sparse B s = Ret (Some i) ->
+  exists kB, In kB (nr_kinds B) /\ kind_len kB = kind_len kA /\ i = kind_info kB payload /\
+    address_for_script enc senc hash160 B (std_script kB payload) = Ret (Some s) /\
+    (2 <= kA -> kB = kA) /\ (cross_kind_ok A B = true -> kB = kA).
+Proof. exact table_cross_network. Qed.
+Print Assumptions C08_cross_network.
+
+(* 4. one-to-one: on a table network two standard scripts with the same address are the same script *)
+Theorem C08_address_injective :
+  forall (enc : bytes -> bytes) (dec : bytes -> option bytes) (senc : bytes -> N -> bytes -> option bytes)
+         (sparse : bytes -> option (bytes * N * bytes * N)) (hash160 : bytes -> bytes),
+  codec_laws enc dec senc sparse ->
+  forall (net : netrow) (k1 : N) (p1 : bytes) (k2 : N) (p2 s : bytes),
+  In net networks -> nr_std net = true -> In k1 (nr_kinds net) -> In k2 (nr_kinds net) ->
+  length p1 = kind_len k1 -> length p2 = kind_len k2 ->
+  address_for_script enc senc hash160 net (std_script k1 p1) = Ret (Some s) ->
+  address_for_script enc senc hash160 net (std_script k2 p2) = Ret (Some s) -> k1 = k2 /\ p1 = p2.
+Proof. exact table_address_injective. Qed.
+Print Assumptions C08_address_injective.
+
+(* 5. classification is faithful, for EVERY byte string: whatever info_for_script reports (p2pkh, p2pkh_wit, p2sh_wit,
+      p2sh, p2pk, p2tr, nulldata, multisig, unknown), for_info rebuilds exactly the original bytes.  (Full statement:
+      the former defects #16 non-minimal pushes and multisig-n-over-16 are fixed in /repo and the model follows.) *)
+Theorem C08_classification_faithful : forall (s : bytes) (i : info), info_for_script s = Ret i -> for_info i = Ret s.
+Proof. exact classification_faithful. Qed.
+Print Assumptions C08_classification_faithful.
+
+(* 5'. what a reported kind says about the script: payload lengths, 1 <= m <= 15, m <= n <= 16, keys of 33..120 bytes,
+       and the exact byte layout *)
+Theorem C08_classification_shape : forall (s : bytes) (i : info), info_for_script s = Ret i ->
+  match i with
+  | IMultisig m keys => (1 <= m <= 15)%Z /\ Forall key_ok keys /\ (m <= Z.of_nat (length keys))%Z /\ (length keys <= 16)%nat
+  | _ => payload_ok i
+  end /\ s = info_render i.
+Proof. exact classification_shape. Qed.
+Print Assumptions C08_classification_shape.
+
+(* 5''. and conversely each of the five standard output scripts is reported as its kind *)
+Theorem C08_standard_scripts_classified : forall (k : N) (payload : bytes), k <= 4 -> length payload = std_len k ->
+  info_for_script (std_script k payload) = Ret (kind_info k payload).
+Proof. exact info_for_script_std. Qed.
+Print Assumptions C08_standard_scripts_classified.
+
+(* 6. key -> address: Key.address is the address of the P2PKH script of hash160(sec); BIP84: of the P2WPKH script;
+      BIP49: of the P2SH script of the hash of the P2WPKH script (hash160 yields 20 bytes: explicit premise) *)
+Theorem C08_key_address :
+  forall (enc : bytes -> bytes) (senc : bytes -> N -> bytes -> option bytes) (hash160 : bytes -> bytes)
+         (net : netrow) (sec : bytes),
+  length (hash160 sec) = 20%nat ->
+  address_for_script enc senc hash160 net (std_script 0 (hash160 sec)) = Ret (key_address enc hash160 net sec).
+Proof. exact key_address_is_p2pkh. Qed.
+Print Assumptions C08_key_address.
+
+Theorem C08_bip84_address :
+  forall (enc : bytes -> bytes) (senc : bytes -> N -> bytes -> option bytes) (hash160 : bytes -> bytes)
+         (net : netrow) (sec : bytes),
+  length (hash160 sec) = 20%nat ->
+  bip84_address senc hash160 net sec = address_for_script enc senc hash160 net (std_script 2 (hash160 sec)).
+Proof. exact bip84_address_is_p2wpkh. Qed.
+Print Assumptions C08_bip84_address.
+
+Theorem C08_bip49_address :
+  forall (enc : bytes -> bytes) (senc : bytes -> N -> bytes -> option bytes) (hash160 : bytes -> bytes)
+         (net : netrow) (sec : bytes),
+  (forall x, length (hash160 x) = 20%nat) ->
+  bip49_address enc hash160 net sec =
+  address_for_script enc senc hash160 net (std_script 1 (hash160 (std_script 2 (hash160 sec)))).
+Proof. exact bip49_address_is_p2sh_p2wpkh. Qed.
+Print Assumptions C08_bip49_address.
+
+(* 7. the table itself: every standard row is well-formed (prefixes of at most 2 bytes, P2PKH prefix <> P2SH prefix, an hrp
+      the encoder accepts, recorded kinds = kinds with a prefix); a changed prefix that breaks this breaks the build here *)
+Theorem C08_table_wellformed : forall net, In net networks -> nr_std net = true -> net_wf net = true.
+Proof. exact table_wf. Qed.
+Print Assumptions C08_table_wellformed.
+
+(* ---- non-vacuity ---- *)
+(* the codec premise has a model *)
+Example C08_codec_laws_satisfiable : exists enc dec senc sparse, codec_laws enc dec senc sparse.
+Proof. exists toy_enc, toy_dec, toy_senc, toy_sparse. exact toy_laws. Qed.
+(* the table has standard rows with all five kinds (Bitcoin) and rows without segwit (Zcash, 2-byte prefixes) *)
+Example C08_table_has_btc : exists net, In net networks /\ nr_std net = true /\ nr_kinds net = [0; 1; 2; 3; 4] /\
+  nr_pkh net = Some [x00] /\ nr_hrp net = Some [x62; x63].
+Proof. eexists. split; [do 5 right; left; reflexivity|]. repeat split. Qed.
+Example C08_table_rows : (40 <= length networks)%nat /\ (40 <= length (filter nr_std networks))%nat.
+Proof. split; vm_compute; repeat constructor. Qed.
+(* the classifier on a concrete P2PKH script *)
+Example C08_classify_example :
+  info_for_script (std_script 0 (repeatb x11 20)) = Ret (IP2PKH (repeatb x11 20)).
+Proof. vm_compute. reflexivity. Qed.
+(* regression of the fixed multisig finding: 17 keys closed by OP_NOP (0x61) is no multisig any more *)
+Example C08_multisig17_is_unknown :
+  let s := x51 :: concat (repeat (x21 :: repeatb x02 33) 17) ++ [x61; xae] in info_for_script s = Ret (IUnknown s).
+Proof. vm_compute. reflexivity. Qed.
